@@ -187,7 +187,7 @@ func (e *Exec) rangeFact(x string, t types.Type, st *State) string {
 	case *types.Pointer, *types.Map, *types.Chan, *types.Signature:
 		return "(<= " + x + " " + e.top(st) + ")"
 	case *types.Slice:
-		return "(and (<= "+e.sbase(x)+" " + e.top(st) + ") (>= "+e.soff(x)+" 0) (>= "+e.slen(x)+" 0) (<= "+e.slen(x)+" "+e.scap(x)+") (=> (= "+e.sbase(x)+" 0) (= "+e.scap(x)+" 0)))"
+		return "(and (<= "+e.sbase(x)+" " + e.top(st) + ") (>= "+e.soff(x)+" 0) (>= "+e.slen(x)+" 0) (<= "+e.slen(x)+" "+e.scap(x)+") (<= "+e.scap(x)+" 4611686018427387904) (=> (= "+e.sbase(x)+" 0) (= "+e.scap(x)+" 0)))"
 	}
 	return "true"
 }
